@@ -585,10 +585,15 @@ class DRRPart:
            "admissibility of the real kernel's interleaving for run()/send_packet is checked on every observed execution "
            "(each logged kernel step must be an enabled action of the model), not proved",
            "the model is hand-written (coq/Elem/DRR.v); it includes its own model of the base-class behaviour DRR uses "
-           "(send_packet, add_packet_to_queue, total_packets, packets_available)"]
+           "(send_packet, add_packet_to_queue, total_packets, packets_available); the internal events of run() "
+           "(DOPass/DOQuantum/DOSkip/DOSend/DOPark/DOEnd/DODebit) on which the visit rule and the fairness proof are stated "
+           "are not observable: the correspondence compares forwarded packets and, after every action, deficit per class, "
+           "queue_count/queue_byte_size per flow, head_of_line, current_packet, len(items) of every store, packets_received, "
+           "total_packets"]
     trusted_base = {"C15": _tb, "C12": _tb, "C08": _tb}
     _as = ["workloads contain only packets whose flow maps to a configured class, size > 0; rate > 0; weights are positive "
-           "(a packet of an unconfigured class makes put() raise KeyError: outside C12's domain)",
+           "(a packet of an unconfigured class makes put() raise KeyError at the caller: outside C12's domain; with "
+           "zero-size packets only, Lmax = 0 and the credit reaches quantum + Lmax exactly: outside C15's strict bound)",
            "'the class's queue empties' is read as the code reads it: class_count (packets of the class waiting or in "
            "transmission) is 0 when run() resumes after the transmission; a packet of the class that arrives during the "
            "transmission of the last one, or at the instant it ends before run() resumes, keeps the credit alive",
